@@ -194,6 +194,11 @@ func (e *c19Env) scan() {
 	})
 }
 
+// cacheRegions: the entry point that looks up ALL regions of a table (its own retry loop, no context of the caller's)
+func (e *c19Env) cacheRegions() {
+	e.goCall("cacheRegions", func() error { return e.c.CacheRegions([]byte("t")) })
+}
+
 func c19counts(tr *verifsim.Trace) (dials, lookups int) {
 	for _, ev := range tr.Events() {
 		switch ev["ev"] {
@@ -243,6 +248,18 @@ func c19finish(e *c19Env, rep *simReport, name string, closedAt time.Time, baseG
 	res, ok := e.c.SendBatch(context.Background(), []hrpc.Call{p})
 	if ok || len(res) != 1 || res[0].Error != ErrClientClosed || time.Since(t1) != 0 {
 		rep.bad("late-call-after-close", "%s: a batch after Close returned ok=%v %v after %v", name, ok, res, time.Since(t1))
+	}
+	// ... by every entry point: CacheRegions has a retry loop of its own and no context of the caller's
+	crDone := make(chan error, 1)
+	go func() { crDone <- e.c.CacheRegions([]byte("t")) }()
+	synctest.Wait()
+	select {
+	case err := <-crDone:
+		if err != ErrClientClosed {
+			rep.bad("late-call-after-close", "%s: CacheRegions after Close returned %v, not ErrClientClosed", name, err)
+		}
+	default:
+		rep.bad("late-call-after-close", "%s: CacheRegions after Close did not return at once (it keeps looking regions up on a closed client)", name)
 	}
 	d0, l0 := c19counts(e.tr)
 	// 2. nothing goes on afterwards: let every timer of the client expire
@@ -313,6 +330,7 @@ func TestVerifC19(t *testing.T) {
 		e.batch("b1", "q1", "h2")
 		e.get("q2")
 		e.scan()
+		e.cacheRegions()
 	}
 	scenario := func(name string, queue int, prep func(e *c19Env, bus *hookBus), during func(e *c19Env, bus *hookBus) time.Time, opts ...Option) []string {
 		var hits []string
@@ -801,6 +819,93 @@ func TestVerifC20(t *testing.T) {
 			rep.Scenarios++
 			rep.Distinct++
 		})
+	}
+	// a regionserver that is going away says so inside a multi response (for a whole region, or for one action): the client
+	// gives that connection up - really gives it up: it is closed before (or when) a new one is opened, regions that were
+	// using it do not stay on it
+	for _, level := range []string{"region", "action"} {
+		for rep2 := 0; rep2 < 2; rep2++ {
+			name := fmt.Sprintf("server-stopping-inside-a-multi/%s/%d", level, rep2)
+			verifsim.Bubble(t, func(t *testing.T) {
+				tr := &verifsim.Trace{}
+				cl := verifsim.NewCluster(tr)
+				for _, a := range []string{"ms", "rs1"} {
+					cl.AddServer(a)
+				}
+				regs := cl.CreateTable("t", [][]byte{[]byte("h")}, []string{"rs1", "rs1"})
+				var mu sync.Mutex
+				var evs []map[string]any
+				emit := func(e map[string]any) { mu.Lock(); evs = append(evs, e); mu.Unlock() }
+				simSetHook(func(point string, c any, arg any) {
+					if point == "clientDown.removed" {
+						if r, ok := arg.(hrpc.RegionInfo); ok {
+							addr := "rs1"
+							if bytes.HasPrefix(r.Name(), []byte("hbase:meta")) {
+								addr = "ms"
+							}
+							emit(map[string]any{"ev": "declaredDead", "addr": addr})
+						}
+					}
+				})
+				cl.DialHook = func(addr string) { emit(map[string]any{"ev": "dial", "addr": addr}) }
+				c := newSimClient(cl, RpcQueueSize(4))
+				get := func(k string) {
+					g, _ := hrpc.NewGet(context.Background(), []byte("t"), []byte(k))
+					if _, err := c.Get(g); err != nil {
+						rep.bad("request-failed", "%s: get %q failed: %v", name, k, err)
+					}
+				}
+				quiesce := func() {
+					time.Sleep(200 * time.Millisecond)
+					synctest.Wait()
+					open := []map[string]any{}
+					for _, a := range []string{"ms", "rs1"} {
+						open = append(open, map[string]any{"addr": a, "n": cl.OpenConns(a)})
+					}
+					emit(map[string]any{"ev": "quiesce", "open": open})
+				}
+				get("a0")
+				get("k0")
+				quiesce()
+				if level == "region" {
+					cl.Flap(regs[0], verifsim.ExcStopped, 1) // the next multi that names region A gets a region-level exception
+				} else {
+					var once atomic.Bool
+					cl.ActionHook = func(rs *verifsim.RS, r *verifsim.Region, op string, row []byte) string {
+						if string(row) == "a1" && once.CompareAndSwap(false, true) {
+							return verifsim.ExcStopped
+						}
+						return ""
+					}
+				}
+				var wg sync.WaitGroup
+				for _, k := range []string{"a1", "k1", "a2", "k2"} {
+					wg.Add(1)
+					go func() { defer wg.Done(); get(k) }()
+				}
+				wg.Wait()
+				quiesce()
+				get("a3")
+				get("k3")
+				quiesce()
+				c.Close()
+				emit(map[string]any{"ev": "closeReturned"})
+				quiesce()
+				time.Sleep(2 * time.Minute)
+				synctest.Wait()
+				for _, a := range []string{"ms", "rs1"} {
+					cl.ResetConns(a)
+				}
+				time.Sleep(time.Minute)
+				synctest.Wait()
+				ndj.Write(map[string]any{"ev": "reset", "scenario": name})
+				for _, e := range evs {
+					ndj.Write(e)
+				}
+				rep.Scenarios++
+				rep.Distinct++
+			})
+		}
 	}
 	// the only region a server hosts is replaced (split, merge back) and its successors live at the same address: the
 	// healthy connection must be reused, not forgotten
